@@ -51,13 +51,16 @@ def run_verdicts(exe, cmd, seed, cases, timeout=900, jobs=16):
             crashes.append({'cmd': cmd, 'rc': rc, 'stderr': (err or '')[-300:], 'n_cases': len(c)})
     return ok, fails, crashes
 
-def plain_parse_dies(chk, exe, cases, seed):
-    """number of inputs on which a plain single-threaded parse panics or kills the process"""
+def plain_parse_dies(chk, exe, cases, seed, api=False):
+    """number of inputs on which a plain single-threaded parse (with api=True: or a single-threaded
+    sweep of the read API) panics or kills the process"""
     import props as P
-    impl, _, crashes, _ = chk.run_cases(exe, cases, 'arena', seed, want_model=False)
+    impl, _, crashes, _ = chk.run_cases(exe, cases, 'arena,api,tp' if api else 'arena', seed, want_model=False)
     n = len(crashes)
     for il in impl.values():
         if P.res_kind(P.res_line(il)) == 'panic':
+            n += 1
+        elif api and P.chk_api_no_panic(il, b''):
             n += 1
     return n
 
@@ -335,9 +338,9 @@ def sp_threads(pid, cfg, tier, seed, exe, chk, violations, broken, notes):
     add_fails(violations, fails, 'impl-oracle', cfg, notes)
     if crashes:
         # a crash that a plain single-threaded parse of the same inputs reproduces is a C01 matter
-        plain = plain_parse_dies(chk, exe, cases, seed)
+        plain = plain_parse_dies(chk, exe, cases, seed, api=True)
         if plain:
-            notes.append(f'roxh threads died, and so does a single-threaded parse of the same inputs ({plain} inputs): a C01 matter')
+            notes.append(f'roxh threads died, and so does a single-threaded parse / API sweep of the same inputs ({plain} inputs): a C01/C10 matter')
         else:
             for c in crashes:
                 violations.append({'kind': 'crash', 'what': f'roxh threads died (a single-threaded parse of the same inputs does not): {c}', 'concrete': True, 'case': {}})
